@@ -141,11 +141,12 @@ func (r *replicator) GetQueue() []cid.Cid {
 	r.muProcess.Lock()
 	defer r.muProcess.Unlock()
 
-	fetching := make([]cid.Cid, r.queue.Len())
-	i := 0
-	for c := range r.tasks {
-		fetching[i] = c
-		i++
+	// only the tasks that are not fetched yet: r.tasks also keeps the finished ones
+	fetching := []cid.Cid{}
+	for c, state := range r.tasks {
+		if state != stateFetched {
+			fetching = append(fetching, c)
+		}
 	}
 
 	return fetching
